@@ -36,7 +36,16 @@ CHECKS["C16"] = {
             "max age); an authorised other session just read/wrote it; the same client issued the same request just "
             "before}; plus listing forms {find, find -w, find -a -d, HTTP /data/C?write=1, DataSink::notifyUpdate} x "
             "{no data, every message with fresh cached data}. A denied client must get the value neither from the bus "
-            "nor from the cache in any history. distinct = distinct (form, history, auth, level, effective list, default "
+            "nor from the cache in any history. Further dimensions on reduced form sets (per ACL, auth none/right secret): "
+            "LEVEL SOURCE - the same levels assigned by a level column of an own header and by four kinds of default rows "
+            "(*r,#L on a file-name circuit; *r,circuit#L; both with a file-name circuit suffix) x 7 forms x 2 histories and "
+            "listings; OPTIONS - 18 forms crossing read/write by name and -h with -s QQ, -d ZZ, -c, -v, -n, FIELD and the "
+            "passive message read by name / HTTP x 2 histories; SECRETS - user u has secret 'sE', a second user another "
+            "one: wrong secrets that are a prefix, an extension, a case variant, empty, the other user's secret and the "
+            "other user's name with u's secret x 4 forms x 2 histories; LEVEL NAMES include the case variants A, aA (Ab); "
+            "CONDITIONAL VARIANTS - one name with two variants of different levels x both selector states. Second run: the "
+            "REAL MqttHandler (libmosquitto stubbed at link time) with the levels of ACL user mqtt or the default entry x "
+            "level x {get, get?prio, set, list, get of a passive message, update notification}. distinct = distinct (form, history, auth, level, effective list, default "
             "source) tuples resp. (level, list) pairs; states = ACL files.",
     "assumptions": [
         "granted iff the message has no level, or the granted list is '*', or the level equals one ';'-separated entry "
@@ -51,9 +60,14 @@ CHECKS["C16"] = {
         "harness": "c16_levels", "sources": ["engines/cmdmc/c16_levels.cpp"], "deps": _FIX,
         "variant": "plain", "libset": "full",
         "quick": {"parts": 16, "deadline": 300,
-                  "bounds": "levels over {a,b} len<=2; 260 lists x 7 levels; 4132 ACLs x 5 auth states x (7 levels x 16 forms x 5 histories + 5 listings x 2 histories)"},
+                  "bounds": "levels over {a,b} len<=2 + A, aA; 586 lists x 9 levels; 4002 ACLs (lower case lists of <=2 names fully crossed; with case variants together <=3 names) x (9 levels x (16 forms x 5 histories [2 for the 3 failing auth states] + 18 option forms x 2) + 5 further level sources + wrong-secret family + conditional variants)"},
         "thorough": {"parts": 16, "deadline": 2700,
-                     "bounds": "levels over {a,b,c} len<=3; 60881 lists x 40 levels; ACL names over {a,b,c} len<=2: 29062 ACLs x 5 x (40 x 16 x 5 + 10)"},
+                     "bounds": "levels over {a,b,c} len<=3 + A, aA, Ab; lists of <=3 of 42 names x 43 levels; ACL names over {a,b,c} len<=2 + A, aA, lists together <=3 names; all forms x all histories for all 5 auth states + the further dimensions"},
+    }, {
+        "harness": "mqtt_real", "sources": ["engines/cmdmc/mqtt_real.cpp"], "deps": _FIX,
+        "variant": "plain", "libset": "full",
+        "quick": {"parts": 8, "deadline": 120, "args": ["--mode", "levels"], "bounds": "real MqttHandler: default lists of <=1 name x mqtt user lists of <=2 names / no mqtt user x 9 levels x 6 forms"},
+        "thorough": {"parts": 16, "deadline": 600, "args": ["--mode", "levels"], "bounds": "as quick with names over {a,b,c} len<=2 + case variants"},
     }],
 }
 
@@ -85,7 +99,14 @@ CHECKS["C18"] = {
             "LF and CRLF in EVERY cut into <=3 pieces and byte by byte; command lines and HTTP requests of every length "
             "200..800 (plain and quoted last argument, long URI, long header) in 255 byte pieces as Connection::run "
             "receives them: the arguments must equal what the client encoded and the request must be reported complete "
-            "by exactly the piece carrying the terminating LF. "
+            "by exactly the piece carrying the terminating LF; every ordered sequence of 2 (thorough 3) requests from a "
+            "set of 7 command lines / 4 HTTP requests through ONE RequestImpl with setResult/waitResponse in between (as "
+            "Connection::run). b also: URIs that do not start with '/' (prefixes '', -old/, .old/, x, ., %2f, a/, index + "
+            "<=3 segments) against marker files that are SIBLINGS of the html root (htmlx.js, html-old/x.js, ...), a query "
+            "holding '?' and %3f, and all raw URIs of length<=5 (thorough 6) over {/,a,?,&,=,%,3,f}. Second run: the REAL "
+            "MqttHandler (libmosquitto stubbed at link time, template set through the real --mqtttopic option parser, one "
+            "child per template): topic built from the template for (c,n,f) + /get or /set must make the handler send the "
+            "telegram of message (c,n). "
             "distinct = distinct vectors / URIs / (template, triple).",
     "assumptions": [
         "a token is a maximal run of non-blank characters; a quoted argument ends at the first token ending with the "
@@ -102,6 +123,11 @@ CHECKS["C18"] = {
         "variant": "plain", "libset": "full",
         "quick": {"parts": 16, "deadline": 80, "bounds": "a: <=3 args x <=2 chars, <=2 args x <=3 chars; b: <=4 segments, raw <=6; c: 3 identifiers; d: LF/CRLF x {whole, CR|LF cuts} on all of a,b + all <=3-piece cuts on the sub-universe + lengths 200..800 in 255 byte pieces"},
         "thorough": {"parts": 16, "deadline": 800, "bounds": "a: <=3 args x <=3 chars; b: <=5 segments, raw <=7; c: 5 identifiers; d: as quick on the thorough universes, sub-universe <=3 args / <=2 segments"},
+    }, {
+        "harness": "mqtt_real", "sources": ["engines/cmdmc/mqtt_real.cpp"], "deps": _FIX,
+        "variant": "plain", "libset": "full",
+        "quick": {"parts": 16, "deadline": 120, "args": ["--mode", "topics"], "bounds": "real MqttHandler: 624 templates with %circuit and %name through the real --mqtttopic parser (one child each) x 27 triples x get/set/list"},
+        "thorough": {"parts": 16, "deadline": 600, "args": ["--mode", "topics"], "bounds": "as quick"},
     }],
 }
 
@@ -111,7 +137,13 @@ C20_CMD_RULE = ("cmd: every TCP command line of <=3 tokens from a 44-token alpha
                 "4-token line of the 10 commands whose usage admits >=3 arguments; the same lines of <=2 (thorough 3) tokens "
                 "in direct mode; every HTTP request line 'GET <concatenation of <=3 (thorough 4) of 26 URI tokens incl. %, "
                 "%n, %s, %*s> HTTP/1.1'; every assignment of 30 CSV column tokens to 2-3 (thorough 3) holes of 11 line frames "
-                "fed to the template loader, the message loader and the define/decode/encode commands. Each case runs on "
+                "fed to the template loader, the message loader and the define/decode/encode commands; shapes: lines of <=4 "
+                "tokens from {empty token (= leading/trailing/double blanks, blanks only), \"a, b\", '', \", read, main}; every "
+                "command word x 28 option spellings of all usage texts x 5 tails; 4- and 5-token lines extending 'write -c main', "
+                "'read -c main', ... by every token; HTTP request lines of 17 shapes (no version, no URI, lower case method, "
+                "doubled blanks, other method, ...) x 5 URIs x LF/CRLF x with/without header; and every string of length<=7 "
+                "(thorough 8) over {a,blank,\",'} as a command line / <=6 over {/,a,%,2,?,blank} as request URI through "
+                "RequestImpl::add+split alone (whole and in two pieces) on the sanitised build. Each case runs on "
                 "a freshly built daemon state in a forked child (ASan+UBSan build; one fork per batch of 48 cases, every "
                 "alarm re-judged alone in a child of its own), followed by a fixed probe and the destructors. "
                 "distinct = distinct inputs.")
@@ -129,7 +161,7 @@ C20_CMD_RUNS = [{
     # ASan, so the ebusd objects of this run are compiled with the libstdc++ assertions (abort on a bad index)
     "obj_flags": ["-D_GLIBCXX_ASSERTIONS"], "flags": ["-D_GLIBCXX_ASSERTIONS"],
     "quick": {"parts": 16, "deadline": 150,
-              "bounds": "tcp <=3 tokens of 44 (direct mode <=2); http <=3 of 26 URI tokens; csv 30 tokens x 2-3 holes x 11 frames"},
+              "bounds": "tcp <=3 tokens of 44 (direct mode <=2); http <=3 of 26 URI tokens; csv 30 tokens x 2-3 holes x 11 frames; shapes (blank/quote lines, CMD -X lines, 4/5-token extensions, 17 request line shapes, all strings <=7 over {a,blank,\",'} through RequestImpl)"},
     "thorough": {"parts": 16, "deadline": 2700,
-                 "bounds": "tcp <=3 tokens of 44 + 4-token lines of 10 commands (direct mode <=3); http <=4 of 26 URI tokens; csv 30 tokens x 3 holes x 11 frames"},
+                 "bounds": "tcp <=3 tokens of 44 + 4-token lines of 10 commands (direct mode <=3); http <=4 of 26 URI tokens; csv 30 tokens x 3 holes x 11 frames; shapes as quick (strings <=8)"},
 }]
